@@ -183,6 +183,69 @@ def run_near(case):
                         "below": v < centre})
 
 
+def run_near_int(case):
+    """case = an int: if it lies strictly within 1% of exactly one of the 50 undotted / single-dotted recognised values (and
+    is not such a value itself) it must be analysed as that value -- a whole number is a value like any other."""
+    S = engine.S
+    n = case
+    hits = [item for item in near_items() if Fraction(99, 100) * item[2] < n < Fraction(101, 100) * item[2] and Fraction(n) != item[2]]
+    if len(hits) != 1 or any(Fraction(n) == it[2] for it in V.VALUES):
+        S.count("near_int_not_judged")
+        return
+    want = _want_tuple(hits[0])
+    got = engine.with_step_budget(mvalue.determine, (n,))
+    S.trans(1)
+    S.outcome(("int", repr(got)))
+    S.count("near_ints_judged")
+    if not _same_tuple(got, want):
+        S.problem("value.determine(%d)  [an int within 1%% of %s]" % (n, hits[0][0]), want, got)
+
+
+HELPER_CALLS = [("triplet", (8,)), ("quintuplet", (8,)), ("septuplet", (8,)), ("septuplet", (8, False)), ("septuplet", (16, True)),
+                ("quintuplet", (4,)), ("tuplet", (8, 3, 2)), ("tuplet", (8, 7, 8)), ("tuplet", (4, 5, 4)), ("dots", (8,)), ("dots", (8, 2)),
+                ("dots", (4, 3)), ("add", (8, 8)), ("subtract", (4, 8))]
+
+
+def _helper_exact(name, args):
+    v = Fraction(args[0])
+    if name == "triplet":
+        return v * 3 / 2
+    if name == "quintuplet":
+        return v * 5 / 4
+    if name == "septuplet":
+        return v * 7 / 4 if (len(args) < 2 or args[1]) else v * 7 / 8
+    if name == "tuplet":
+        return v * args[1] / args[2]
+    if name == "dots":
+        nr = args[1] if len(args) > 1 else 1
+        return v / (2 - Fraction(1, 2 ** nr))
+    if name == "add":
+        return 1 / (1 / v + 1 / Fraction(args[1]))
+    if name == "subtract":
+        return 1 / (1 / v - 1 / Fraction(args[1]))
+    raise engine.HarnessError("no reference for %r" % name)
+
+
+def run_helper_history(case):
+    """case = [i, j]: for every third helper call k, the calls (i, j, k) in a freshly loaded value module: each returns its
+    documented value whatever was called before."""
+    import importlib
+    S = engine.S
+    i, j = case
+    for k in range(len(HELPER_CALLS)):
+        importlib.reload(mvalue)
+        for pos, c in enumerate((i, j, k)):
+            name, args = HELPER_CALLS[c]
+            got = getattr(mvalue, name)(*args)
+            S.trans(1)
+            if not _rel_close(got, _helper_exact(name, args), 1e-12):
+                S.problem("value.%s%r as call %d of %s in a freshly loaded module" % (name, args, pos + 1,
+                          [HELPER_CALLS[x][0] + repr(HELPER_CALLS[x][1]) for x in (i, j, k)[:pos + 1]]), float(_helper_exact(name, args)), got)
+                return
+    S.count("helper_histories", len(HELPER_CALLS))
+    S.outcome(("helpers", i, j))
+
+
 _NEAR = {"d": 20000}
 
 
@@ -442,6 +505,8 @@ CLAUSES = {
     "meter": run_meter,
     "meter_pair": run_meter_pair,
     "dots_order": run_dots_order,
+    "near_int": run_near_int,
+    "helper_history": run_helper_history,
 }
 
 
@@ -472,6 +537,15 @@ def explore(ctx):
         ctx.bound("meter_counts", counts)
         ctx.bound("meter_units", len(_METER["units"]))
         ctx.product("meter", counts, gen_meter)
+    if ctx.want("near_int"):
+        ctx.bound("near_int", "every int 1..400")
+        ctx.serial("near_int", list(range(1, 401)))
+        if not ctx.only:
+            ctx.guard("ints judged near a recognised value", ctx.counter("near_ints_judged"), 10)
+    if ctx.want("helper_history"):
+        nh = len(HELPER_CALLS)
+        ctx.bound("helper_history", "every sequence of 3 calls over %d helper calls, each in a freshly loaded module" % nh)
+        ctx.product("helper_history", list(range(nh)), lambda i: ([i, j] for j in range(nh)))
     if ctx.want("dots_order"):
         import itertools as _it
         orders = [list(p) for k in (1, 2, 3, 4) for p in _it.permutations((1, 2, 3, 4), k)]
